@@ -69,6 +69,9 @@ func ParseTargetPattern(currentPackage string, pattern string) (TargetPattern, e
 	if len(prefix) > 0 && prefix[len(prefix)-1] == '/' {
 		prefix = prefix[:len(prefix)-1]
 	}
+	// Repeated trailing slashes ("//pkg//:x") must normalize to the same prefix
+	// that the printed form of the pattern re-parses to.
+	prefix = strings.TrimRight(prefix, "/")
 	return TargetPattern{prefix: prefix, targetPattern: targetPattern, recursive: recursive}, nil
 }
 
